@@ -269,6 +269,41 @@ func c15Check(c c15Case) error {
 					}
 				}
 			}
+			if st.Edit%3 == 1 {
+				// a blob one of whose blocks is stored empty although a size is declared for it: whatever the outcome
+				// is, it is the same with the pooled Serializer and destination as with fresh ones
+				src := lastBlob
+				if olderBlob != nil {
+					src = olderBlob
+				}
+				if rb, err := decodeBlob(src); err == nil {
+					rb.emptyBlock[(st.Edit/3)%3] = true
+					bad := rb.encode()
+					var fres, gres *simdjson.ParsedJson
+					var ferr, gerr error
+					if perr := noPanic("Deserialize of a blob with an empty stored block (fresh objects)", func() { fres, ferr = simdjson.NewSerializer().Deserialize(append([]byte(nil), bad...), nil) }); perr != nil {
+						return fmt.Errorf("%s: %v", where, perr)
+					}
+					var bdst *simdjson.ParsedJson
+					if slot >= 0 {
+						bdst = pool[slot]
+						model[slot] = nil
+					}
+					if perr := noPanic("Deserialize of a blob with an empty stored block (pooled objects)", func() { gres, gerr = s.Deserialize(append([]byte(nil), bad...), bdst) }); perr != nil {
+						return fmt.Errorf("%s: %v", where, perr)
+					}
+					if (ferr == nil) != (gerr == nil) {
+						return fmt.Errorf("%s: a blob with an empty stored block: fresh Serializer and destination err=%v, pooled ones err=%v", where, ferr, gerr)
+					}
+					if ferr == nil {
+						fc, e1 := canonOf(fres)
+						gc, e2 := canonOf(gres)
+						if (e1 == nil) != (e2 == nil) || (e1 == nil && !bytes.Equal(fc, gc)) {
+							return fmt.Errorf("%s: a blob with an empty stored block is accepted, but denotes different documents with fresh objects and with pooled ones: %v / %v %s", where, e1, e2, diffCanon(fc, gc))
+						}
+					}
+				}
+			}
 			var dst *simdjson.ParsedJson
 			if slot >= 0 {
 				dst = pool[slot]
